@@ -18,4 +18,20 @@ PROPS = {
         "assumptions": ["the reference predicate (signed view of the wrapped difference) is the RFC 1982 definition for SERIAL_BITS=32",
                         "Serial::add is only called with addends <= 2^31-1 (documented contract)"],
     },
+    "C18": {
+        "level": "exploration",
+        "features": ["hooks"],
+        "stages": [
+            {"mode": "native"},
+            {"mode": "asan", "scale": 0.1},
+        ],
+        "offline": ["b64_ref.py"],
+        "rule": "an evaluation is one text decoded through decode(), Decoder and the scanner-side SymbolConverter under 4 tokenisations, or one octet string "
+                "encoded and decoded back, judged by in-harness RFC 4648 codecs (three-valued: well-formed / tolerated non-canonical / malformed); "
+                "exhaustive over all octet strings of length 0..2 and all texts of length <= 5 (quick) or 6 (thorough) over a 7-symbol alphabet per codec; "
+                "distinct = (codec, reference class, library verdicts, length mod 8, padding count, length) tuples",
+        "assumptions": ["Base32 means the unpadded extended-hex variant (the only one the module implements); padded or lower-case Base32 and "
+                        "non-zero trailing bits may be rejected or accepted-with-the-right-octets (RFC 4648 3.5)",
+                        "a caller of Decoder::push stops at the first error"],
+    },
 }
